@@ -93,7 +93,8 @@ class Resolver:
                     return prim("int")
                 return UNK
             if head == "Callable":
-                return UNK
+                # Callable[<params>, R]: calling it yields R
+                return ("callable", self.anno(module, args[1])) if len(args) == 2 else UNK
             return UNK
         return UNK
 
@@ -129,7 +130,7 @@ class Resolver:
             self._env_cache.pop(fi.qualname, None)     # never leave a half-built environment behind
             raise
 
-    def _build_env(self, fi: FuncInfo, env: Dict[str, tuple]) -> Dict[str, tuple]:
+    def _build_env(self, fi: FuncInfo, env: Dict[str, tuple], overrides: Optional[Dict[str, tuple]] = None) -> Dict[str, tuple]:
         node = fi.node
         a = node.args
         params = a.posonlyargs + a.args + a.kwonlyargs
@@ -138,6 +139,9 @@ class Resolver:
                 env[p.arg] = ("type", fi.cls) if fi.is_classmethod else ("inst", fi.cls)
             else:
                 env[p.arg] = self.anno(fi.module, p.annotation)
+        for k, v in (overrides or {}).items():
+            if k in env:
+                env[k] = v
         if isinstance(node, ast.Lambda):
             return env
         # two passes so that later assignments can use earlier ones
@@ -376,6 +380,8 @@ class Resolver:
             if n in env and env[n][0] in ("funcs",):
                 q = env[n][1][0]
                 return self.anno(self.m.functions[q].module, self.m.functions[q].node.returns) if not isinstance(self.m.functions[q].node, ast.Lambda) else UNK
+            if n in env and env[n][0] == "callable":
+                return env[n][1]
             if n in ("bytes", "bytearray", "memoryview", "str", "int", "bool", "float"):
                 return prim(n)
             if n == "len" or n == "ord":
@@ -424,7 +430,8 @@ class Resolver:
                 return ("inst", q)
             if q in self.m.functions:
                 fn = self.m.functions[q]
-                return self.anno(fn.module, fn.node.returns)
+                rt = self.anno(fn.module, fn.node.returns)
+                return rt if rt != UNK else self.specialised_return(fn, e, fi, env)
             return UNK
         if isinstance(f, ast.Attribute):
             bt = self.strip_opt(self.type_of(f.value, fi, env))
@@ -438,6 +445,8 @@ class Resolver:
                 if mt is not None:
                     rt = self.anno(mt.module, mt.node.returns)
                     # classmethod constructors annotated with the subclass name are fine as-is
+                    if rt == UNK:
+                        rt = self.specialised_return(mt, e, fi, env)
                     return rt
                 return UNK
             if at[0] == "pmethod":
@@ -504,6 +513,39 @@ class Resolver:
                 return self.anno(fn.module, fn.node.returns)
             if q in self.m.classes:
                 return ("inst", q)
+        return UNK
+
+    def specialised_return(self, callee: FuncInfo, e: ast.Call, fi: FuncInfo, env) -> tuple:
+        """Return type of a callee annotated `Any` (or not at all) that is handed a package function at this call site:
+        the callee's returned expression is typed with that parameter bound to the function."""
+        if isinstance(callee.node, ast.Lambda) or getattr(self, "_spec_depth", 0) > 2:
+            return UNK
+        ps = callee.params()
+        if callee.cls and not callee.is_staticmethod:
+            ps = ps[1:]
+        over: Dict[str, tuple] = {}
+        for i, a in enumerate(e.args):
+            if i < len(ps):
+                t = self.type_of(a, fi, env)
+                if t[0] == "funcs":
+                    over[ps[i]] = t
+        for k in e.keywords:
+            if k.arg in ps:
+                t = self.type_of(k.value, fi, env)
+                if t[0] == "funcs":
+                    over[k.arg] = t
+        if not over:
+            return UNK
+        self._spec_depth = getattr(self, "_spec_depth", 0) + 1
+        try:
+            env2 = self._build_env(callee, {}, over)
+            for r in walk_no_nested(callee.node):
+                if isinstance(r, ast.Return) and r.value is not None:
+                    t = self.type_of(r.value, callee, env2)
+                    if t != UNK:
+                        return t
+        finally:
+            self._spec_depth -= 1
         return UNK
 
     # ------------------------------------------------------------ callee resolution
